@@ -275,7 +275,7 @@ StepCommit(pol, s, ch, side, n, r, st, Sw) ==
                THEN Opt(Gt(s.value, pol.max_chan), "chan_size")
                  \o TriggeredOnchain(pol, ch, n)                       \* every number > 0, retries included
                  \o common
-                 \o Opt(n > 1, "state")                                 \* n > next_counterparty_revoke_num + 1
+                 \o Opt(n > st.nr + 1, "state")                         \* n > next_counterparty_revoke_num + 1
                  \o Opt(n + 1 = st.nc /\ st.curC # << r >>, "state")     \* retry with changed contents
                  \o Opt(n + 1 # st.nc /\ n # st.nc, "state")            \* neither current nor next
                ELSE Opt(n > st.nh + 1, "state")                         \* no commitment point that far ahead
@@ -292,20 +292,25 @@ StepCommit(pol, s, ch, side, n, r, st, Sw) ==
 (***************************************************************************)
 Phases == {"stub", "ready", "opened", "chained", "pending", "chained2", "done", "dead"}
 NoChain(h0) == [h0 |-> h0, blocks |-> 0, fund_at |-> 0, close_at |-> 0]
-InitSt(c) == [ph |-> "stub", nh |-> 0, nc |-> 0, curH |-> << >>, nextH |-> << >>, curC |-> << >>,
+InitSt(c) == [ph |-> "stub", nh |-> 0, nc |-> 0, nr |-> 0, curH |-> << >>, nextH |-> << >>, curC |-> << >>,
               acc |-> {}, ch |-> NoChain(c.chain.h0)]
 
 \* kind "setup": setup_channel only; "commit": [open when n > 0] ; chain ; request;
-\* "seq": open ; chain ; request1 (c.seq.req1, same side and number) ; chain2 (the chain changes
-\* to c.seq.chain2: blocks added or disconnected) ; request (c.req, the same number again)
+\* "seq": open ; chain ; request1 (c.seq.req1) ; then either
+\*   chain2 (the chain changes to c.seq.chain2: blocks added or disconnected) ; request (c.req, the
+\*          SAME number again), or, when c.seq.adv,
+\*   advance (the pending commitment becomes current: the holder revokes its predecessor /
+\*          the counterparty's revocation of the predecessor is validated) ; request (c.req, the
+\*          NEXT number n; request1 had number n - 1)
 NeedsOpen(c) == c.n > 0 \/ c.kind = "seq"
+N1(c) == IF c.seq.adv THEN c.n - 1 ELSE c.n            \* the number of request1
 \* the event enabled in a state of case c ("none": the behaviour is over)
 EventOf(c, st) ==
   CASE st.ph = "stub" -> "setup"
     [] st.ph = "ready" -> IF c.kind = "setup" THEN "none" ELSE IF NeedsOpen(c) THEN "open" ELSE "chain"
     [] st.ph = "opened" -> "chain"
     [] st.ph = "chained" -> IF c.kind = "seq" THEN "request1" ELSE "request"
-    [] st.ph = "pending" -> "chain2"
+    [] st.ph = "pending" -> IF c.seq.adv THEN "advance" ELSE "chain2"
     [] st.ph = "chained2" -> "request"
     [] OTHER -> "none"
 
@@ -313,6 +318,7 @@ EventOf(c, st) ==
 PreHolder(c) == c.pre.holder
 PreCp(c)     == c.pre.cp
 ReqOfEv(c, ev) == IF ev = "request1" THEN c.seq.req1 ELSE c.req
+NumOfEv(c, ev) == IF ev = "request1" THEN N1(c) ELSE c.n
 Fresh(st, side, n, r) == <<side, n, r>> \notin st.acc
 
 \* what the model answers to the event
@@ -323,7 +329,11 @@ ModelResp(c, st, ev, Sw) ==
              b == StepCommit(c.pol, c.setup, st.ch, "holder", 0, PreHolder(c), st, Sw) IN
          IF ~a.ok THEN a ELSE b
     [] ev \in {"chain", "chain2"} -> Resp("none")
-    [] ev \in {"request", "request1"} -> StepCommit(c.pol, c.setup, st.ch, c.side, c.n, ReqOfEv(c, ev), st, Sw)
+       \* revoke_previous_holder_commitment / validate_counterparty_revocation (with the right secret)
+    [] ev = "advance" -> Resp(IF (c.side = "holder" /\ st.nextH # << >>) \/ (c.side = "cp" /\ st.nc = st.nr + 2)
+                               THEN "none" ELSE "state")
+    [] ev \in {"request", "request1"} ->
+         StepCommit(c.pol, c.setup, st.ch, c.side, NumOfEv(c, ev), ReqOfEv(c, ev), st, Sw)
 
 \* the enforcement state after an ACCEPTED commitment request
 Accepted(st, side, n, r) ==
@@ -345,7 +355,12 @@ After(c, st, ev, ok) ==
     [] ev = "chain2" -> [st EXCEPT !.ph = "chained2",
                                    !.ch = [h0 |-> c.chain.h0, blocks |-> c.seq.chain2.blocks,
                                            fund_at |-> c.seq.chain2.fund_at, close_at |-> c.seq.chain2.close_at]]
-    [] ev = "request1" -> [(IF ok THEN Accepted(st, c.side, c.n, c.seq.req1) ELSE st) EXCEPT !.ph = "pending"]
+    [] ev = "request1" -> [(IF ok THEN Accepted(st, c.side, N1(c), c.seq.req1) ELSE st) EXCEPT !.ph = "pending"]
+    [] ev = "advance" ->
+         IF ~ok THEN [st EXCEPT !.ph = "dead"]
+         ELSE IF c.side = "holder"
+           THEN [st EXCEPT !.ph = "chained2", !.nh = @ + 1, !.curH = st.nextH, !.nextH = << >>]
+           ELSE [st EXCEPT !.ph = "chained2", !.nr = @ + 1]
     [] ev = "request" -> [(IF ok THEN Accepted(st, c.side, c.n, c.req) ELSE st) EXCEPT !.ph = "done"]
 
 \* the rules broken by what the event asks to accept (evaluated on the inputs and on what was
@@ -354,9 +369,10 @@ BrokenBy(c, st, ev) ==
   CASE ev = "setup" -> ViolatedSetup(c.pol, c.setup)
     [] ev = "open" -> ViolatedCommit(c.pol, c.setup, st.ch, "cp", 0, PreCp(c), TRUE)
                         \cup ViolatedCommit(c.pol, c.setup, st.ch, "holder", 0, PreHolder(c), TRUE)
-    [] ev \in {"chain", "chain2"} -> {}
+    [] ev \in {"chain", "chain2", "advance"} -> {}
     [] ev \in {"request", "request1"} ->
-         ViolatedCommit(c.pol, c.setup, st.ch, c.side, c.n, ReqOfEv(c, ev), Fresh(st, c.side, c.n, ReqOfEv(c, ev)))
+         ViolatedCommit(c.pol, c.setup, st.ch, c.side, NumOfEv(c, ev), ReqOfEv(c, ev),
+                        Fresh(st, c.side, NumOfEv(c, ev), ReqOfEv(c, ev)))
 
 \* ghost: the bound rules broken by an ACCEPTED event (empty: nothing wrong was accepted)
 GhostAfter(c, st, ev, ok) == IF ok THEN Binding(c.pol, BrokenBy(c, st, ev)) ELSE {}
